@@ -457,6 +457,44 @@ def run(tier, seed, replay=None):
         if dfr:
             corr_bad += {'what': 'L1: const_par_curve differs from the model: %s' % dfr, 'op': 'const_par_curve', 'args': a_}
     dist['op']['L1 comparisons'] = nl1
+    # ---- kernel-evaluated tie: surface_factory.coons_patch vs Model/CoonsLib.v (coons_patch_obj on Q, vm_compute)
+    import vmtie as T
+    ccases = []
+    for _ in range(12 if tier == 'quick' else 120):
+        def rknots(p_):
+            inner = sorted(rng.sample(range(1, 8), rng.randint(0, 3)))
+            a_, b_ = rng.choice([(0.0, 1.0), (1.0, 3.0), (-2.0, 2.0), (0.0, 4.0)])
+            return [a_] * p_ + [a_ + (b_ - a_) * x_ / 8.0 for x_ in inner] + [b_] * p_
+        pu, pv = rng.choice([2, 3, 4]), rng.choice([2, 3])
+        bu_, bv_ = BSplineBasis(pu, rknots(pu)), BSplineBasis(pv, rknots(pv))
+        n_, m_ = bu_.num_functions(), bv_.num_functions()
+        dim_ = rng.choice([2, 3])
+        rat_ = rng.random() < 0.4
+        w_ = dim_ + (1 if rat_ else 0)
+
+        def rpt():
+            v_ = [rng.randint(-32, 32) / 8.0 for _c in range(dim_)]
+            return v_ + ([rng.choice([1.0, 0.75, 1.25, 1.5])] if rat_ else [])
+        c00, c10, c11, c01 = rpt(), rpt(), rpt(), rpt()
+        net = lambda a_, k_, b_: np.array([a_] + [rpt() for _i in range(k_ - 2)] + [b_])
+        bottom = Curve(bu_, net(c00, n_, c10), rat_)
+        topf = Curve(bu_, net(c01, n_, c11), rat_)       # left to right; the factory wants it right to left
+        leftf = Curve(bv_, net(c00, m_, c01), rat_)      # bottom to top; the factory wants it top to bottom
+        right = Curve(bv_, net(c10, m_, c11), rat_)
+        top, left = topf.clone().reverse(), leftf.clone().reverse()
+        try:
+            srf = sf.coons_patch(bottom.clone(), right.clone(), top.clone(), left.clone())
+        except Exception as e:  # noqa
+            corr_bad += {'what': 'vmtie coons: coons_patch raised %s on four compatible curves' % type(e).__name__, 'op': 'coons_patch'}
+            continue
+        count('vmtie coons_patch', rational=rat_)
+        term = T.obj_close('coons_patch_obj %s %s %s %s' % (T.obj(bottom), T.obj(right), T.obj(top), T.obj(left)), srf, 1e-9)
+        ccases.append(('coons_patch(bottom, right, top, left): orders %d,%d, %dx%d, dimension %d, rational %s' % (pu, pv, n_, m_, dim_, rat_), term,
+                       dict(bottom=[bottom.knots(0, True).tolist(), bottom.controlpoints.tolist()],
+                            right=[right.knots(0, True).tolist(), right.controlpoints.tolist()], top=[top.knots(0, True).tolist(), top.controlpoints.tolist()],
+                            left=[left.knots(0, True).tolist(), left.controlpoints.tolist()], rational=rat_)))
+    tie_c = T.report(V, corr_bad, 'coons', 'Model/CoonsLib.v coons_patch_obj', *T.run_tie('coons', ['Model.CoonsLib'], ccases))
+    dist['op']['vmtie coons'] = tie_c['cases']
     rc = V.finish(l0, corr_bad)
     C.write_evidence(PID, tier, seed, l0, {
         'evaluations': evals, 'distinct_nontrivial': len(nontriv),
